@@ -44,6 +44,16 @@ define_language! {
     }
 }
 
+// C18: a language with payload variants (a number before a symbol: a numeral is "accepted by an earlier payload variant")
+define_language! {
+    pub enum Lp {
+        PU(AppliedId) = "pu",
+        PV(Slot) = "pv",
+        PNum(u32),
+        PSym(Symbol),
+    }
+}
+
 // C03: arithmetic over a prime field with a summation binder and a let binder (the model lives in mirsmt/model_eval.py)
 define_language! {
     pub enum Lm {
